@@ -1,4 +1,4 @@
--- GENERATED from /repo on every check run by harness/gen_constants.py — do not edit.
+-- GENERATED from /repo on every check run by harness/common.py:gen_constants — do not edit.
 namespace Tickit.Gen
 def topicPrefix : String := "tickit-"
 def inSuffix : String := "-in"
